@@ -205,11 +205,11 @@ PROPS["C04"] = {
             "stored under a repeated or case-variant name), optional SecArgumentsLimit below the number of arguments; in a third of the cases "
             "rules with regular-expression selectors written with capitals are added and, after the first fresh WAF, a second WAF holding the same "
             "rules with argument and header/cookie collections exchanged is created and kept open (the outcome may not depend on which WAFs "
-            "were created before); "
+            "were created before); one case in six carries a JSON body whose member names differ only in case; "
             "each case is executed 12 times (6 fresh WAFs, 6 consecutive transactions on one WAF) and the canonical outcomes (interruption, "
             "ordered fired ids, per-rule multiset of triples, TX map, HIGHEST_SEVERITY) must be identical; the runtime's map iteration order "
             "is the adversary; non-trivial = >=2 rules fire, >=1 transformation and a collection with >=3 entries and a repeated name",
-    "essential": {"all": ["kind:matching", "kind:scoring", ">=3-entries-with-repeated-name", "argument-count-above-limit", "interrupted", "first-value-readers", "other-requests-in-between", "other-waf-created-in-between"]},
+    "essential": {"all": ["kind:matching", "kind:scoring", ">=3-entries-with-repeated-name", "argument-count-above-limit", "interrupted", "first-value-readers", "other-requests-in-between", "other-waf-created-in-between", "json-body-with-case-variant-names"]},
     "assumptions": COMMON_ASSUME + [
         "a divergence that occurs with probability p per run survives 12 repetitions with probability (1-p)^12",
         "order-sensitive effects (assigning %{MATCHED_VAR} over several matches) are not generated",
